@@ -76,6 +76,10 @@ FamDef == [
   core1 |-> [ alpha |-> Singles(<<"a", "b", "*", "?", "[", "]", "!", "-", "\\", "^">>), maxt |-> 3,
               sa |-> <<"a", "b", "]", "-", "\\", "[", "!", "NL">>, sn |-> 2, la |-> <<"a", "b", "]">>, ln |-> 3,
               modes |-> { {E} } ],
+  \* patterns of literals that are regular-expression metacharacters, also used unanchored (search): see SearchSetOf
+  unanch |-> [ alpha |-> Singles(<<"a", "$", ".", "^", "*", "+">>), maxt |-> 3,
+              sa |-> <<"a", "$", ".", "^", "b">>, sn |-> 2, la |-> <<"a", "$">>, ln |-> 3,
+              modes |-> { {E}, {E, "Shortest"} } ],
   \* bracket expressions, exhaustively up to five symbols
   brk   |-> [ alpha |-> Singles(<<"[", "]", "-", "!", "a">>), maxt |-> 5,
               sa |-> <<"a", "A", "-", "]", "!", "[", "^", "0">>, sn |-> 1, la |-> <<"a", "-", "]">>, ln |-> 2,
@@ -630,6 +634,11 @@ Pat == Flatten(toks)
 \* ------------------------------------------------------------------------
 \* What is emitted for every state
 MatchSetOf(els, subj, X) == { n \in 1..Len(subj) : Match(els, subj[n], X) }
+\* Without EntireString the regular expression is used to search: it accepts a subject iff some substring of the
+\* subject (the empty one included) matches the whole pattern.  Emitted for the family "unanch" only.
+SearchSetOf(els, subj, X) ==
+  { n \in 1..Len(subj) : \E i \in 1..(Len(subj[n]) + 1) : \E j \in (i - 1)..Len(subj[n]) :
+        Match(els, SubSeq(subj[n], i, j), X) }
 
 View ==
   LET X    == Opt(mode)
@@ -643,6 +652,7 @@ View ==
       elsD == ParsePat(p, XD)
   IN [ fam |-> fam, mode |-> mode, pat |-> p,
        acc |-> acc,
+       accs |-> IF fam = "unanch" /\ BadOf(els) = {} THEN SearchSetOf(els, subj, X) ELSE {},
        \* two more subjects outside the family's universe: the pattern text itself and
        \* the pattern with its escapes removed
        xsubj |-> <<p, un>>,
